@@ -65,6 +65,10 @@ def op_text(op):
         return f'(set-index/all {op[1]})'
     if k == 'rewind':
         return '(step (- INDEX))'
+    if k == 'sample':
+        return "(sample-at '(" + ' '.join(map(str, op[2])) + f") {op[1]})"
+    if k == 'stepunknown':
+        return f'(step "{op[1]}" {op[2]})' if op[2] != 1 else f'(step "{op[1]}")'
     if k == 'trim':
         return f"(if (<= {op[1]}^INDEX {op[2]}) (trim-trace '{op[1]} {op[2]}) #f)"
     if k == 'trim1':
@@ -91,6 +95,15 @@ class C02(framework.PropertyCheck):
             tids = ['t0', 'tB'][:ntr]
             seeds = [rng.randrange(1 << 30) for _ in range(ntr)]
             ops = gen_ops(rng, tids, lens, rng.randint(1, 12))
+            if rng.random() < 0.25:
+                # a resampling that names its trace, somewhere after the trace has moved: the position starts again at the first sample
+                t = rng.choice(tids)
+                n_t = lens[tids.index(t)]
+                keep = sorted(rng.sample(range(n_t), rng.randint(1, n_t)))
+                ops.insert(rng.randint(len(ops) // 2, len(ops)), ['sample', t, keep])
+            if rng.random() < 0.15:
+                # a request that names a trace which is not loaded is refused (last: the evaluation raises)
+                ops.append(['stepunknown', rng.choice(['zz', 'tC', 't1']), rng.choice([1, 2, -1])])
             yield {'tids': tids, 'lens': lens, 'seeds': seeds, 'ops': ops}
         if tier == 'thorough':
             # bounded-exhaustive part
@@ -141,13 +154,14 @@ class C02(framework.PropertyCheck):
         idx = {tid: 0 for tid, _, _ in traces}
         mx = {tid: len(den['timestamps']) - 1 for tid, _, den in traces}
         dens = {tid: den for tid, _, den in traces}
+        look = {}
 
         def expected_probe():
             vals = []
             for tid, _, _ in traces:
                 d = dens[tid]
-                i = idx[tid]
-                vals += [('I', i), ('I', d['timestamps'][i]), ('I', mx[tid]), _v(d['values']['top.cnt'][i]), _v(d['values']['top.d'][i])]
+                i = look[tid][idx[tid]] if tid in look else idx[tid]
+                vals += [('I', idx[tid]), ('I', d['timestamps'][i]), ('I', mx[tid]), _v(d['values']['top.cnt'][i]), _v(d['values']['top.d'][i])]
             return ('L', True, tuple(vals))
 
         def _v(x):
@@ -164,6 +178,26 @@ class C02(framework.PropertyCheck):
         k += 1
         for n_op, op in enumerate(case['ops']):
             kind = op[0]
+            if kind == 'stepunknown':
+                if k >= len(iobs):
+                    return {'what': 'evaluation stopped early', 'op': op_text(op), 'obs': iobs[-1]}
+                if iobs[k][0] == 'ok':
+                    return {'what': 'a request naming a trace that is not loaded was not refused', 'op': op_text(op), 'got': iobs[k]}
+                return None
+            if kind == 'sample':
+                t, keep = op[1], op[2]
+                if k + 1 >= len(iobs):
+                    return {'what': 'evaluation stopped early', 'op': op_text(op), 'obs': iobs[-1]}
+                look[t] = list(keep)
+                idx[t] = 0
+                mx[t] = len(keep) - 1
+                got_r, got_p = iobs[k], iobs[k + 1]
+                want = expected_probe()
+                if got_r[0] != 'ok' or got_p[0] != 'ok' or got_p[1] != want:
+                    return {'what': 'positions/values after a resampling that names its trace differ', 'op_index': n_op, 'op': op_text(op),
+                            'got': got_p, 'want': want}
+                k += 2
+                continue
             if kind == 'trim':
                 t, m = op[1], op[2]
                 if idx[t] <= m:
